@@ -872,6 +872,9 @@ class _Fold(ast.NodeTransformer):
         if isinstance(f, ast.Attribute) and f.attr in ("asarray", "asanyarray") and isinstance(f.value, ast.Name) and f.value.id in ("np", "numpy") \
                 and len(node.args) == 1 and not node.keywords:
             return node.args[0]
+        # bool(<comparison / and / or / not>): the test itself
+        if isinstance(f, ast.Name) and f.id == "bool" and len(node.args) == 1 and not node.keywords and isinstance(node.args[0], (ast.Compare, ast.BoolOp)) :
+            return node.args[0]
         # getattr(obj, "name") -> obj.name
         if isinstance(f, ast.Name) and f.id == "getattr" and len(node.args) == 2 and not node.keywords and isinstance(node.args[1], ast.Constant) \
                 and isinstance(node.args[1].value, str) and node.args[1].value.isidentifier():
